@@ -32,6 +32,8 @@ type ParamSpec struct {
 	Explode string `json:"explode"` // "" | true | false
 	Present bool   `json:"present"`
 	HasDef  bool   `json:"has_default"`
+	// PathLevel: declared on the path item instead of the operation
+	PathLevel bool `json:"path_level,omitempty"`
 }
 
 type Case struct {
@@ -179,13 +181,17 @@ func inject(s M, v any) any {
 }
 
 func build(c Case) (*openapi3.T, error) {
-	var params []any
+	var params, pathParams []any
 	for _, p := range c.Params {
 		pm := M{"name": p.Name, "in": p.In, "schema": paramSchema(p)}
 		if p.Explode != "" {
 			pm["explode"] = p.Explode == "true"
 		}
-		params = append(params, pm)
+		if p.PathLevel {
+			pathParams = append(pathParams, pm)
+		} else {
+			params = append(params, pm)
+		}
 	}
 	op := M{"responses": M{"200": M{"description": "d"}}}
 	if len(params) > 0 {
@@ -199,7 +205,11 @@ func build(c Case) (*openapi3.T, error) {
 		op["security"] = []any{M{"key": []any{}}}
 		comps["securitySchemes"] = M{"key": M{"type": "apiKey", "name": "X-Key", "in": "header"}}
 	}
-	return kinx.Load(kinx.Doc(M{"/r": M{"post": op}}, comps))
+	item := M{"post": op}
+	if len(pathParams) > 0 {
+		item["parameters"] = pathParams
+	}
+	return kinx.Load(kinx.Doc(M{"/r": item}, comps))
 }
 
 type drainOnce struct {
@@ -388,6 +398,12 @@ func check(c Case) (o h.Outcome) {
 	// O3: each absent parameter with a default now decodes to that default; present ones are untouched
 	for _, p := range c.Params {
 		param := route.Operation.Parameters.GetByInAndName(p.In, p.Name)
+		if p.PathLevel {
+			param = route.PathItem.Parameters.GetByInAndName(p.In, p.Name)
+		}
+		if param == nil {
+			panic("harness: parameter not found in the built document")
+		}
 		in3 := &openapi3filter.RequestValidationInput{Request: req, Route: route}
 		var dec any
 		var found bool
@@ -526,7 +542,7 @@ func gen(t *rapid.T) Case {
 	seen := map[string]bool{}
 	for i := 0; i < n; i++ {
 		p := ParamSpec{In: rapid.SampledFrom([]string{"query", "query", "header", "cookie"}).Draw(t, "in"), Name: rapid.SampledFrom([]string{"pa", "pb", "pc", "X-D"}).Draw(t, "name"),
-			Kind: rapid.SampledFrom([]string{"integer", "string", "array"}).Draw(t, "kind"), Present: rapid.Bool().Draw(t, "present"), HasDef: rapid.IntRange(0, 3).Draw(t, "hasdef") > 0}
+			Kind: rapid.SampledFrom([]string{"integer", "string", "array"}).Draw(t, "kind"), Present: rapid.Bool().Draw(t, "present"), HasDef: rapid.IntRange(0, 3).Draw(t, "hasdef") > 0, PathLevel: rapid.IntRange(0, 2).Draw(t, "pathlevel") == 0}
 		if p.In == "query" || p.In == "header" {
 			p.Explode = rapid.SampledFrom([]string{"", "true", "false"}).Draw(t, "explode")
 		}
